@@ -163,7 +163,12 @@ func TestVerifC13(t *testing.T) {
 			frame(j.root, msg, cls, vrt.PathSignature(j.path), "path "+j.path.String(), map[string]any{"root": j.root.String(), "path": j.path.String(), "class": cls})
 			// histories: the mapped name with an event of a type that carries no namespace before / after the event on the path
 			if cls == "mapped" && (vrt.PathEventType(j.path) != "" || vrt.PathBlobField(j.path) != "") {
-				for _, pad := range []string{"skippable-event-before", "skippable-event-after"} {
+				pads := []string{"skippable-event-before", "skippable-event-after"}
+				if vrt.PathBlobField(j.path) != "" {
+					// a batch with nothing to map before / after the batch that holds the mapped name; the batch JSON-encoded
+					pads = append(pads, "unmatched-batch-before", "unmatched-batch-after", "json-encoded-blob")
+				}
+				for _, pad := range pads {
 					msg := vfBuildAtPadded(j.root, j.path, v, pad)
 					frame(j.root, msg, cls+"/"+pad, vrt.PathSignature(j.path), "path "+j.path.String()+" ("+pad+")", map[string]any{"root": j.root.String(), "path": j.path.String(), "class": cls, "pad": pad})
 				}
